@@ -221,6 +221,12 @@ class SimSocket(socket.socket):
         self._pos += n
         return data
 
+    def recv_into(self, buffer, nbytes=0, flags=0):
+        want = nbytes or len(buffer)
+        data = self.recv(want, flags)
+        buffer[: len(data)] = data
+        return len(data)
+
     def send(self, data, flags=0):
         self.sent.append(bytes(data))
         return len(data)
@@ -262,6 +268,20 @@ class SimSocket(socket.socket):
     @property
     def sim_seconds(self) -> float:
         return self.now
+
+
+class SimTLSSocket(SimSocket):
+    """
+    A socket subclass that - like ssl.SSLSocket - also has read(len) / write(data) methods with
+    *record* semantics: read(len) returns up to len bytes of what has arrived, there is no readline.
+    The library must treat it as the socket it is.
+    """
+
+    def read(self, len=1024, buffer=None):  # pylint: disable=redefined-builtin
+        return self.recv(len)
+
+    def write(self, data):
+        return self.send(data)
 
 
 class SimSerial:
@@ -320,6 +340,37 @@ class SimSerial:
         self.ledger.append(("readline", off, -1, len(data)))
         return data
 
+    def read_until(self, expected=b"\n", size=None):
+        """pyserial's read_until: up to and including `expected`, or `size` bytes, or the timeout."""
+        off = self._pos
+        self.budget.tick(off >= len(self._wire))
+        deadline = self.now + self._timeout
+        end = self._pos
+        limit = len(self._wire) if size is None else min(len(self._wire), self._pos + size)
+        hit = False
+        while end < limit:
+            if self._byte_time[end] > deadline:
+                break
+            end += 1
+            if expected and self._wire[self._pos : end].endswith(expected):
+                hit = True
+                break
+        data = self._wire[self._pos : end]
+        if hit or (size is not None and len(data) == size):
+            self.now = max(self.now, self._byte_time[end - 1]) if data else self.now
+        else:
+            self.now = deadline
+        self._pos = end
+        self.ledger.append(("read_until", off, -1, len(data)))
+        return data
+
+    @property
+    def in_waiting(self):
+        n = self._pos
+        while n < len(self._wire) and self._byte_time[n] <= self.now:
+            n += 1
+        return n - self._pos
+
     @property
     def handed_out(self) -> int:
         return self._pos
@@ -331,6 +382,34 @@ class SimSerial:
     @property
     def sim_seconds(self) -> float:
         return self.now
+
+
+class PlainBytesIO:
+    """
+    Factory for an EXACT io.BytesIO (not a subclass): a reader may legitimately treat the standard
+    stream types specially (e.g. read ahead and seek back).  No ledger and no call budget here; the
+    attributes the harness needs are attached through a tiny shim.
+    """
+
+    @staticmethod
+    def make(wire: bytes):
+        stream = io.BytesIO(wire)
+        return _BytesIOShim(stream, len(wire))
+
+
+class _BytesIOShim:
+    """What the harness knows about a plain BytesIO transport (the reader gets .stream itself)."""
+
+    def __init__(self, stream, n):
+        self.stream = stream
+        self.wire_len = n
+        self.ledger = []
+        self.sim_seconds = 0.0
+        self.now = 0.0
+
+    @property
+    def handed_out(self):
+        return self.stream.tell()
 
 
 def fit_segments(segs, n: int):
@@ -363,6 +442,13 @@ def make_transport(wire: bytes, tr: dict):
         return CapFile(wire, tr.get("cap", 16))
     if kind == "pipe":
         return PipeFile(wire)
+    if kind == "bytesio":
+        return PlainBytesIO.make(wire)
+    if kind == "tlssocket":
+        sched = dict(tr)
+        if sched.get("segments") is not None:
+            sched["segments"] = fit_segments(sched["segments"], len(wire))
+        return SimTLSSocket(wire, sched)
     sched = dict(tr)
     if sched.get("segments") is not None:
         sched["segments"] = fit_segments(sched["segments"], len(wire))
